@@ -5,7 +5,7 @@
    harness/vlib/translate.py; NOT part of coq/theories because it depends on the generated module.
    Every generated function takes the type V of the parameter values as its first argument. *)
 From Coq Require Import Qround.
-From QV Require Import Evqe.Genome Evqe.GenomeFacts Evqe.GenomeOps_proofs Translate.C16Aux.
+From QV Require Import Evqe.Genome Evqe.GenomeFacts Evqe.GenomeOps_proofs Translate.C16Aux Translate.C20Aux.
 From QV Require Import Translate.PyPrelude Translate.PyPrelude_proofs.
 From QVGen Require Import C16Gen.
 Open Scope Z_scope.
@@ -38,6 +38,21 @@ Print Assumptions link_ControlGate_n_parameters.
 Lemma link_ControlledRotationGate_n_parameters : forall q c, gen_ControlledRotationGate_n_parameters = gate_n_parameters (GCRot q c).
 Proof. reflexivity. Qed.
 Print Assumptions link_ControlledRotationGate_n_parameters.
+
+(* every gate class's static gate_type(): the member of EVQEGateType that C20Aux's gate_type_of (the reading of
+   `gate.gate_type()` in specs/c20.py) assigns to the constructor representing the class *)
+Lemma link_IdentityGate_gate_type : forall q, gen_IdentityGate_gate_type = gate_type_of (GId q).
+Proof. reflexivity. Qed.
+Print Assumptions link_IdentityGate_gate_type.
+Lemma link_RotationGate_gate_type : forall q, gen_RotationGate_gate_type = gate_type_of (GRot q).
+Proof. reflexivity. Qed.
+Print Assumptions link_RotationGate_gate_type.
+Lemma link_ControlGate_gate_type : forall q t, gen_ControlGate_gate_type = gate_type_of (GCtrl q t).
+Proof. reflexivity. Qed.
+Print Assumptions link_ControlGate_gate_type.
+Lemma link_ControlledRotationGate_gate_type : forall q c, gen_ControlledRotationGate_gate_type = gate_type_of (GCRot q c).
+Proof. reflexivity. Qed.
+Print Assumptions link_ControlledRotationGate_gate_type.
 
 (* gate.n_parameters() on an EVQEGate (dispatch-by-constructor over the four translated methods) *)
 Lemma gate_n_parameters_dispatch g :
